@@ -102,6 +102,12 @@ def lines(tier):
         Line('dbd', 'Mo100', level=0, mode=1, emin=0.5, emax=1.5, tag='window-on-mode-1'), Line('dbd', 'Mo100', level=0, mode=1, emax=1.5, tag='emax-on-mode-1'),
         Line('dbd', 'Mo100', level=0, mode=4, emin=1.5, emax=0.5, tag='inverted-window'), Line('dbd', 'Mo100', level=0, mode=4, emin=3.5, emax=4.0, tag='window-above-Q'),
         Line('dbd', 'Mo100', level=7, mode=1, tag='level-out-of-range'), Line('dbd', 'Mo100', level=1, mode=1, tag='mode-spin-mismatch'), Line('dbd', 'Zr96', level=1, mode=20, tag='4b-excited'),
+        # nuclide / mode incompatibilities (the rules of the reference: capture and positron modes need a proton-rich parent, the
+        # two-electron modes a neutron-rich one; 2+ modes a 2+ level): refused before any event is written
+        Line('dbd', 'Mo100', level=0, mode=9, tag='Kb+-on-2b-'), Line('dbd', 'Mo100', level=0, mode=10, tag='Kb+-on-2b-'), Line('dbd', 'Mo100', level=0, mode=11, tag='2K-on-2b-'),
+        Line('dbd', 'Mo100', level=0, mode=12, tag='2K-on-2b-'), Line('dbd', 'Se82', level=0, mode=12, tag='2K-on-2b-'), Line('dbd', 'Nd150', level=0, mode=12, tag='2K-on-2b-'),
+        Line('dbd', 'Xe136', level=0, mode=11, tag='2K-on-2b-'), Line('dbd', 'Cd106', level=0, mode=7, tag='2+-mode-on-0+-level'), Line('dbd', 'Mo100', level=0, mode=8, tag='2+-mode-on-0+-level'),
+        Line('dbd', 'Mo100', level=0, mode=16, tag='2+-mode-on-0+-level'), Line('dbd', 'Ge76', level=0, mode=20, tag='4b-on-other-nuclide'),
         Line('background', 'Co60', count=0, tag='count0'), Line('background', 'Co60', seed=-1, tag='negative-seed'), Line('background', 'Co60', activity=0.0, tag='activity0'),
         Line('background', 'Co60', activity=-2.0, tag='negative-activity'), Line('alpha', 'Co60', tag='bad-category'), Line(None, 'Co60', tag='no-category'),
         Line('background', None, tag='no-nuclide'), Line('background', 'Co60', raw=['--frobnicate'], tag='unknown-option'), Line('background', 'Co60', raw=['extra-positional'], tag='two-positionals'),
